@@ -319,6 +319,7 @@ type repScenario struct {
 	// replica's engine, and a restart closes and reopens that engine too; only the transport is swapped for the
 	// in-memory link. The applier is the manager's own, so the applied log is not recorded (C14's oracle only).
 	ViaManager bool
+	PCfg       string // engine configuration of the primary ("" = big: synchronous logging)
 }
 
 type repResult struct {
@@ -367,7 +368,11 @@ func runRep(dir string, sc repScenario, faults map[int]int) (*repResult, vsched.
 		ms = debugMaxSteps
 	}
 	s := vsched.Run(vsched.Config{Bound: 0, Timed: true, MaxSteps: ms, Trace: debugMaxSteps > 0}, func() {
-		pr, err := newEngRun(dir+"/primary", engCfgs["big"])
+		pcfg := sc.PCfg
+		if pcfg == "" {
+			pcfg = "big"
+		}
+		pr, err := newEngRun(dir+"/primary", engCfgs[pcfg])
 		if err != nil {
 			res.Problem = "HARNESS open primary: " + err.Error()
 			return
